@@ -91,9 +91,9 @@ func verif` + id + `Num(name string, buf []byte, forms int) []byte {
 	return append(buf, 0xff, byte(v>>56), byte(v>>48), byte(v>>40), byte(v>>32), byte(v>>24), byte(v>>16), byte(v>>8), byte(v))
 }
 
-func verif` + id + `Parse(parse func(r enc.ParseReader, ic bool)) {
+func verif` + id + `Parse(parse func(r enc.ParseReader, ic bool), nshapes int) {
 	var in []byte
-	shape := verifChoice("shape", 3)
+	shape := verifChoice("shape", nshapes)
 	switch shape {
 	case 0:
 		n := verifParam("parsebytes", 5)
@@ -125,7 +125,19 @@ func verif` + id + `Parse(parse func(r enc.ParseReader, ic bool)) {
 
 `)
 		for _, m := range gm.names {
-			fmt.Fprintf(&sb, "func Verif%s_Parse_%s_%s() {\n\tverif%sParse(func(r enc.ParseReader, ic bool) {\n\t\tctx := %sParsingContext{}\n\t\tctx.Init()\n\t\tctx.Parse(r, ic)\n\t})\n}\n\n", id, dirTag(gm.dir), m, id, m)
+			// the third input shape (small element + header with arbitrary length) only for parsers that decode a TLV header
+			// of their own inside the loop body (map fields): it multiplies the cost of the large packet models by 30
+			nshapes := 2
+			if i := strings.Index(gm.src, "func (context *"+m+"ParsingContext) Parse("); i >= 0 {
+				body := gm.src[i+1:]
+				if j := strings.Index(body, "\nfunc "); j >= 0 {
+					body = body[:j]
+				}
+				if strings.Contains(body, "pseudoValue := struct") {
+					nshapes = 3
+				}
+			}
+			fmt.Fprintf(&sb, "func Verif%s_Parse_%s_%s() {\n\tverif%sParse(func(r enc.ParseReader, ic bool) {\n\t\tctx := %sParsingContext{}\n\t\tctx.Init()\n\t\tctx.Parse(r, ic)\n\t}, %d)\n}\n\n", id, dirTag(gm.dir), m, id, m, nshapes)
 		}
 		out = append(out, harnessFile{path: filepath.Join(verifDir, "harness", id, "gen_parse_"+dirTag(gm.dir)+".go"), dir: gm.dir, pkgName: gm.pkg, src: []byte(sb.String())})
 	}
